@@ -142,3 +142,12 @@ def wrappers(ctx):
         ctx.check(ok, R, f'{name}.selector', ctx.where(fo, sel[-1] if sel else None), found=sel[-1].term if sel else None,
                   expected=f'RangeSelector1D(None, _slice, <fetcher>, self._info["{n_attr}"])',
                   reason='negative and open-ended row keys are resolved against the length of this table')
+
+
+_run_core = run
+
+
+def run(ctx):
+    _run_core(ctx)
+    from . import refs_misc
+    refs_misc.run_for(ctx, 'C14')
